@@ -60,6 +60,8 @@ func c03Fields() []c03Field {
 		{"l2_distance(split(value, ','), list(1, 2, 3))", "csvnum", true},
 		{"json(value)['a']", "json", false}, {"json(value)['l'][1]", "json", false}, {"json(value)['o']['b']", "json", false},
 		{"split(value, ',')[0]", "csv", true}, {"list(1, 2, 3)[1]", "", true}, {"int_list(4, 5)[0]", "", true}, {"float_list(0.5, 1.5)[1]", "", true},
+		// an index that lies behind the end of some rows' lists and inside others'
+		{"split(value, ',')[1]", "csv", true}, {"split(value, ',')[2]", "csv", true}, {"json(value)['l'][2]", "json", false}, {"split(key + ',' + value, ',')[2]", "csv", true},
 		{"key + value", "", true}, {"key + '-' + value", "", true}, {"int(value) + 1", "num", true}, {"int(value) * 2 - 1", "num", true},
 		{"int(value) / 2", "num", true}, {"float(value) / 2", "num", true}, {"int(value) + 0.5", "num", true}, {"2 * 3 + int(value)", "num", true},
 		{"key = 'a001'", "", true}, {"key ^= 'a00'", "", true}, {"value ~= '^1'", "", true}, {"int(value) > 1", "num", true},
